@@ -812,11 +812,322 @@ def _fixed_keys_update(call):
     return isinstance(a, ast.Call) and isinstance(a.func, ast.Name) and a.func.id == 'dict' and not a.args
 
 
-def closure_rerun_state(factory):
+def _read_before_write(body, name, also_calls=()):
+    """May a read of `name` in this statement list happen before `name` has been assigned on the way from the top?  A small
+    must-be-assigned walk over the statements (branches joined by `and`, loop bodies and try bodies may not run, nested functions
+    are not entered).  -> the first such read (node) or None"""
+    found = []
+
+    def reads(e):
+        st = [e]
+        while st:
+            n = st.pop()
+            if isinstance(n, (ast.FunctionDef, ast.AsyncFunctionDef, ast.Lambda)):
+                continue
+            if isinstance(n, ast.Name) and n.id == name and isinstance(n.ctx, ast.Load):
+                return n
+            if isinstance(n, ast.Name) and n.id in also_calls and isinstance(n.ctx, ast.Load):
+                return n        # a sibling closure that uses the name is called (or handed on) here
+            st.extend(ast.iter_child_nodes(n))
+        return None
+
+    def stores(t):
+        return any(isinstance(n, ast.Name) and n.id == name and isinstance(n.ctx, ast.Store) for n in ast.walk(t))
+
+    def note(e, assigned):
+        if not assigned and e is not None and not found:
+            r = reads(e)
+            if r is not None:
+                found.append(r)
+
+    def block(stmts, assigned):
+        for s_ in stmts:
+            assigned = stmt(s_, assigned)
+        return assigned
+
+    def stmt(s_, a):
+        if isinstance(s_, (ast.FunctionDef, ast.AsyncFunctionDef, ast.ClassDef)):
+            return a
+        if isinstance(s_, ast.Assign):
+            note(s_.value, a)
+            for t in s_.targets:
+                if not (isinstance(t, ast.Name)):
+                    note(t, a)
+            return a or any(stores(t) for t in s_.targets)
+        if isinstance(s_, ast.AnnAssign):
+            note(s_.value, a)
+            return a or (s_.value is not None and stores(s_.target))
+        if isinstance(s_, ast.AugAssign):
+            note(s_.value, a)
+            if isinstance(s_.target, ast.Name) and s_.target.id == name and not a and not found:
+                found.append(s_.target)
+            return a
+        if isinstance(s_, ast.If):
+            note(s_.test, a)
+            a1 = block(s_.body, a)
+            a2 = block(s_.orelse, a)
+            return a1 and a2
+        if isinstance(s_, (ast.For, ast.AsyncFor)):
+            note(s_.iter, a)
+            block(s_.body, a or stores(s_.target))
+            block(s_.orelse, a)
+            return a
+        if isinstance(s_, ast.While):
+            note(s_.test, a)
+            block(s_.body, a)
+            block(s_.orelse, a)
+            return a
+        if isinstance(s_, (ast.With, ast.AsyncWith)):
+            for it in s_.items:
+                note(it.context_expr, a)
+                if it.optional_vars is not None and stores(it.optional_vars):
+                    a = True
+            return block(s_.body, a)
+        if isinstance(s_, ast.Try):
+            a1 = block(s_.body, a)
+            for h in s_.handlers:
+                block(h.body, a)
+            a2 = block(s_.orelse, a1)
+            block(s_.finalbody, a)
+            return a and a2
+        note(s_, a)
+        return a
+    block(body, False)
+    return found[0] if found else None
+
+
+_KEEP_IDENTITY = {'list', 'tuple', 'sorted', 'reversed', 'enumerate', 'zip', 'iter', 'filter'}
+_ELEMENT_METHODS = {'values', 'items', 'get', 'pop', 'setdefault', '__getitem__'}
+_MUTATORS = {'append', 'extend', 'add', 'update', 'insert', 'appendleft', 'pop', 'remove', 'clear', 'setdefault', 'sort', 'reverse',
+             'popitem', 'discard'}
+
+
+def _owned_elements(factory, bound, module_helpers=None):
+    """What a step function does to the OBJECTS the factory was given (its arguments and what it built from them), as opposed to its
+    names: `for f in fields: f['target'] = {...}` stores into the caller's specification, and the next run of the same step object
+    reads what this run left there.  An alias walk per nested function: a local bound to a factory-scope name, to a part of one
+    (subscript, attribute, .get / .values / .items, iteration), or to a display / list() / sorted() of such is an alias; anything
+    else (copy.deepcopy(x), dict(x), a comprehension building new objects) ends the chain.  Assignments that are statements of the
+    function body itself are definite: after `fields = [dict(f) for f in fields]` the name no longer stands for the caller's
+    objects.  -> [(factory-scope name, node, function name, 'element')] for: a store into an alias under a computed key or by
+    augmented assignment; a deletion; an in-place mutator on a part of an alias; a store under a literal key that is read, from a
+    factory-owned object, earlier in the same run (here or in a module-level helper an alias is handed to).  Entries the function
+    itself sets afresh before (X['k'] = ..., X.update(dict(k=...))) are per-run, not carried."""
+    out = []
+    helpers = dict(module_helpers or {})
+
+    def targets(t):
+        if isinstance(t, ast.Name):
+            yield t.id
+        elif isinstance(t, (ast.Tuple, ast.List)):
+            for x in t.elts:
+                yield from targets(x)
+        elif isinstance(t, ast.Starred):
+            yield from targets(t.value)
+
+    def visit(fn, alias_in):
+        a = fn.args
+        params = {x.arg for x in a.posonlyargs + a.args + a.kwonlyargs} | ({a.vararg.arg} if a.vararg else set()) | \
+            ({a.kwarg.arg} if a.kwarg else set())
+        inherited = {k: v for k, v in alias_in.items() if k not in params}
+        own = list(_own_walk(fn))
+        pos = {}
+        for i, st_ in enumerate(fn.body):
+            stack = [st_]
+            while stack:
+                x = stack.pop()
+                pos[id(x)] = i
+                if isinstance(x, (ast.FunctionDef, ast.AsyncFunctionDef, ast.Lambda)) and x is not st_:
+                    continue
+                stack.extend(ast.iter_child_nodes(x))
+        events = {}         # name -> [(position, root or None, definite, binds inside its own statement)]
+
+        def alias_at(name, at, overlay=None):
+            if overlay and name in overlay:
+                return overlay[name]
+            evs = [e for e in events.get(name, []) if e[0] < at or (e[0] == at and e[3])]
+            if not evs:
+                return inherited.get(name) if name not in events or not any(e[2] and e[0] < at for e in events[name]) else None
+            d = max([e[0] for e in evs if e[2]], default=None)
+            cands = [e for e in evs if d is None or e[0] >= d]
+            for e in cands:
+                if e[1]:
+                    return e[1]
+            if d is not None:
+                return None
+            return inherited.get(name)
+
+        def root(e, at, ov=None):
+            if isinstance(e, ast.Name):
+                return alias_at(e.id, at, ov)
+            if isinstance(e, (ast.Subscript, ast.Attribute, ast.Starred)):
+                return root(e.value, at, ov)
+            if isinstance(e, (ast.List, ast.Tuple, ast.Set)):
+                for x in e.elts:
+                    r = root(x, at, ov)
+                    if r:
+                        return r
+                return None
+            if isinstance(e, ast.IfExp):
+                return root(e.body, at, ov) or root(e.orelse, at, ov)
+            if isinstance(e, ast.BoolOp):
+                for x in e.values:
+                    r = root(x, at, ov)
+                    if r:
+                        return r
+                return None
+            if isinstance(e, (ast.ListComp, ast.SetComp, ast.GeneratorExp)):
+                ov2 = dict(ov or {})
+                for g in e.generators:
+                    r = root(g.iter, at, ov2)
+                    for nm in targets(g.target):
+                        ov2[nm] = r
+                return root(e.elt, at, ov2)
+            if isinstance(e, ast.Call):
+                if isinstance(e.func, ast.Name) and e.func.id in _KEEP_IDENTITY:
+                    for x in e.args:
+                        r = root(x, at, ov)
+                        if r:
+                            return r
+                    return None
+                if isinstance(e.func, ast.Attribute) and e.func.attr in _ELEMENT_METHODS:
+                    return root(e.func.value, at, ov)
+            return None
+        top = set(id(x) for x in fn.body)
+        for _ in range(4):
+            events.clear() if False else None
+            new_events = {}
+            for n in own:
+                at = pos.get(id(n), 0)
+                if isinstance(n, ast.Assign):
+                    r = root(n.value, at)
+                    for t in n.targets:
+                        for nm in targets(t):
+                            new_events.setdefault(nm, []).append((at, r, id(n) in top, False))
+                elif isinstance(n, (ast.For, ast.AsyncFor)):
+                    r = root(n.iter, at)
+                    for nm in targets(n.target):
+                        new_events.setdefault(nm, []).append((at, r, False, True))
+                elif isinstance(n, (ast.With, ast.AsyncWith)):
+                    for it in n.items:
+                        if it.optional_vars is not None:
+                            for nm in targets(it.optional_vars):
+                                new_events.setdefault(nm, []).append((at, None, False, True))
+            if new_events == events:
+                break
+            events.clear()
+            events.update(new_events)
+
+        def path_keys(e):
+            ks = []
+            while isinstance(e, (ast.Subscript, ast.Attribute)):
+                if isinstance(e, ast.Subscript):
+                    ks.append(e.slice.value if isinstance(e.slice, ast.Constant) else None)
+                e = e.value
+            return (e.id if isinstance(e, ast.Name) else None), list(reversed(ks))
+        resets = {}
+        for n in own:
+            if isinstance(n, ast.Assign):
+                for t in n.targets:
+                    if isinstance(t, ast.Subscript) and isinstance(t.value, ast.Name) and isinstance(t.slice, ast.Constant):
+                        resets.setdefault((t.value.id, t.slice.value), []).append(pos.get(id(n), 0))
+            if isinstance(n, ast.Call) and isinstance(n.func, ast.Attribute) and n.func.attr == 'update' and \
+                    isinstance(n.func.value, ast.Name):
+                ks = [k.arg for k in n.keywords if k.arg]
+                for a_ in n.args:
+                    if isinstance(a_, ast.Dict):
+                        ks += [k.value for k in a_.keys if isinstance(k, ast.Constant)]
+                    elif isinstance(a_, ast.Call) and isinstance(a_.func, ast.Name) and a_.func.id == 'dict':
+                        ks += [k.arg for k in a_.keywords if k.arg]
+                for k in ks:
+                    resets.setdefault((n.func.value.id, k), []).append(pos.get(id(n), 0))
+
+        def reset_before(e, at):
+            nm, ks = path_keys(e)
+            return bool(nm and ks and ks[0] is not None and any(p_ < at for p_ in resets.get((nm, ks[0]), [])))
+
+        def key_read_before(key, at):
+            for n in own:
+                p_ = pos.get(id(n), 0)
+                if p_ >= at:
+                    continue
+                if isinstance(n, ast.Subscript) and isinstance(n.ctx, ast.Load) and isinstance(n.slice, ast.Constant) and \
+                        n.slice.value == key and root(n.value, p_):
+                    return n
+                if isinstance(n, ast.Call) and isinstance(n.func, ast.Attribute) and n.func.attr == 'get' and n.args and \
+                        isinstance(n.args[0], ast.Constant) and n.args[0].value == key and root(n.func.value, p_):
+                    return n
+                if isinstance(n, ast.Call) and isinstance(n.func, ast.Name) and n.func.id in helpers and \
+                        any(root(a_, p_) for a_ in n.args) and key in helpers[n.func.id]:
+                    return n
+            return None
+
+        def is_factory_name(v, at):
+            return isinstance(v, ast.Name) and v.id in bound and alias_at(v.id, at) == v.id
+        for n in own:
+            hit = None
+            at = pos.get(id(n), 0)
+            if isinstance(n, (ast.Assign, ast.AugAssign)):
+                ts = n.targets if isinstance(n, ast.Assign) else [n.target]
+                for t in ts:
+                    if not isinstance(t, ast.Subscript):
+                        continue
+                    r = root(t.value, at)
+                    if not r or reset_before(t.value, at):
+                        continue
+                    if is_factory_name(t.value, at) and not isinstance(t.slice, ast.Constant):
+                        continue        # a computed-key store into the factory-scope name itself: the growth rule
+                    if not isinstance(t.slice, ast.Constant) or isinstance(n, ast.AugAssign):
+                        hit = r
+                    elif key_read_before(t.slice.value, at) is not None:
+                        hit = r
+            elif isinstance(n, ast.Delete):
+                for t in n.targets:
+                    if isinstance(t, ast.Subscript) and root(t.value, at) and not reset_before(t.value, at):
+                        hit = root(t.value, at)
+            elif isinstance(n, ast.Call) and isinstance(n.func, ast.Attribute) and n.func.attr in _MUTATORS:
+                v = n.func.value
+                if not is_factory_name(v, at):      # mutators on the factory-scope names themselves: the growth rule
+                    r = root(v, at)
+                    if r and not _fixed_keys_update(n) and not reset_before(v, at):
+                        hit = r
+            if hit:
+                out.append((hit, n, fn.name, 'element'))
+        # what nested closures see: the aliases as they stand at the end of this function
+        end = len(fn.body) + 1
+        names = set(events) | set(inherited)
+        seen_by_nested = {}
+        for nm in names:
+            r = alias_at(nm, end)
+            if r:
+                seen_by_nested[nm] = r
+        for g in own:
+            if isinstance(g, (ast.FunctionDef, ast.AsyncFunctionDef)):
+                visit(g, seen_by_nested)
+    # names the step function sets afresh for every run (nonlocal X; X = ...) do not hold what the factory was given
+    per_run = set()
+    for g in ast.walk(factory):
+        if isinstance(g, (ast.FunctionDef, ast.AsyncFunctionDef)) and g is not factory:
+            nl = set()
+            for n in _own_walk(g):
+                if isinstance(n, ast.Nonlocal):
+                    nl |= set(n.names)
+            for n in _own_walk(g):
+                if isinstance(n, ast.Name) and isinstance(n.ctx, ast.Store) and n.id in nl:
+                    per_run.add(n.id)
+    base = {b: b for b in bound if b not in per_run}
+    for g in factory.body:
+        if isinstance(g, (ast.FunctionDef, ast.AsyncFunctionDef)):
+            visit(g, base)
+    return out
+
+
+def closure_rerun_state(factory, module_helpers=None):
     """Function-style steps: names bound by the factory (its parameters and locals) that the step function it returns grows in place
     (append / extend / add / update / insert, a store under a computed key, +=): they live as long as the step object and carry what
     one run recorded into the next.  -> [(name, node, inner function name)]"""
     bound = {a.arg for a in factory.args.posonlyargs + factory.args.args + factory.args.kwonlyargs}
+    bound |= {a.arg for a in (factory.args.vararg, factory.args.kwarg) if a is not None}
     inner = []
     stack = list(factory.body)
     while stack:
@@ -882,12 +1193,174 @@ def closure_rerun_state(factory):
             visit(g, vis)
     for g in inner:
         visit(g, set(bound))
+    # a factory-scope name that a nested function rebinds (nonlocal X; X = ...): the first run starts from what the factory was given,
+    # the next run from what the previous run left (`if X is None: X = <from this package>`) - unless the function the factory hands
+    # out assigns X before anything reads it (directly, or through a sibling closure that uses X), i.e. resets it for every run
+    allfns = [n for n in ast.walk(factory) if isinstance(n, (ast.FunctionDef, ast.AsyncFunctionDef)) and n is not factory]
+    rebound = set()
+    for g in allfns:
+        nl = set()
+        for n in ast.walk(g):
+            if isinstance(n, ast.Nonlocal):
+                nl |= set(n.names)
+        own = [n for n in _own_walk(g)]
+        for nm in nl & bound:
+            if any(isinstance(n, ast.Name) and n.id == nm and isinstance(n.ctx, ast.Store) for n in own):
+                rebound.add(nm)
+    if rebound:
+        ret_names = set()
+        for r in ast.walk(factory):
+            if isinstance(r, ast.Return) and r.value is not None:
+                ret_names |= {y.id for y in ast.walk(r.value) if isinstance(y, ast.Name)}
+        entries = [g for g in inner if g.name in ret_names]
+        for nm in sorted(rebound):
+            users = {g.name for g in inner if any(isinstance(n, ast.Name) and n.id == nm for n in ast.walk(g))}
+            grew = True
+            while grew:     # closures that call such a closure use the name too
+                grew = False
+                for g in inner:
+                    if g.name not in users and any(isinstance(n, ast.Name) and n.id in users for n in ast.walk(g)):
+                        users.add(g.name)
+                        grew = True
+            for e in entries:
+                r = _read_before_write(e.body, nm, also_calls=users - {e.name})
+                if r is not None:
+                    out.append((nm, r, e.name, 'rebound'))
+    have = {id(h[1]) for h in out}
+    out.extend(h for h in _owned_elements(factory, bound, module_helpers) if id(h[1]) not in have)
     return out
+
+
+def _own_walk(fn):
+    st = list(fn.body)
+    while st:
+        n = st.pop()
+        yield n
+        if isinstance(n, (ast.FunctionDef, ast.AsyncFunctionDef, ast.Lambda)):
+            continue
+        st.extend(ast.iter_child_nodes(n))
+
+
+def _module_key_reads(module):
+    """module-level function name -> the literal keys its body reads (x['k'] / x.get('k')), for the owned-element rule"""
+    out = {}
+    for st in module.tree.body:
+        if isinstance(st, (ast.FunctionDef, ast.AsyncFunctionDef)):
+            ks = set()
+            for n in ast.walk(st):
+                if isinstance(n, ast.Subscript) and isinstance(n.ctx, ast.Load) and isinstance(n.slice, ast.Constant):
+                    ks.add(n.slice.value)
+                if isinstance(n, ast.Call) and isinstance(n.func, ast.Attribute) and n.func.attr == 'get' and n.args and \
+                        isinstance(n.args[0], ast.Constant):
+                    ks.add(n.args[0].value)
+            out[st.name] = ks
+    return out
+
+
+def _call_sites(ctx):
+    """qualname of a library function -> the calls in the library that resolve to it (computed once per context)"""
+    cs = getattr(ctx, '_call_sites_cache', None)
+    if cs is not None:
+        return cs
+    cs = {}
+    for m in ctx.repo.modules.values():
+        for c in ast.walk(m.tree):
+            if isinstance(c, ast.Call):
+                try:
+                    tg = ctx.res.resolve_call(c)
+                except Exception:
+                    tg = []
+                for t in tg:
+                    if isinstance(t, FuncInfo):
+                        cs.setdefault(t.qualname, []).append(c)
+    ctx._call_sites_cache = cs
+    return cs
+
+
+def _per_run_context(ctx, call):
+    """Is this call evaluated while a run is under way?  Inside a generator function, or inside a function nested in another one
+    (the step function a factory hands out and whatever it defines) - not at module level, in a constructor or in the body of a
+    top-level factory, which run when the flow is put together."""
+    f = ctx.repo.enclosing_func(call)
+    while f is not None and isinstance(f.node, ast.Lambda):
+        f = f.parent
+    if f is None:
+        return False
+    if f.is_generator:
+        return True
+    return f.parent is not None and f.cls is None
+
+
+_R34N_CONTROL = '''
+def carried(source=None):
+    def func(package):
+        nonlocal source
+        if source is None:
+            source = package.pkg.descriptor['resources'][0]['name']
+        yield package.pkg
+        yield from package
+    return func
+
+def reset(spec):
+    current = None
+    def helper():
+        return current
+    def func(package):
+        nonlocal current
+        current = dict(spec)
+        helper()
+        yield package.pkg
+    return func
+'''
+
+
+_R34E_CONTROL = '''
+def completes_in_place(*args):
+    def func(package):
+        fields = args[0]
+        describe(package, fields)
+        yield package.pkg
+        for f in fields:
+            if isinstance(f['target'], str):
+                f['target'] = dict(name=f['target'])
+        yield from package
+    return func
+
+def completes_copies(*args):
+    def func(package):
+        fields = args[0]
+        fields = [dict(f) for f in fields]
+        describe(package, fields)
+        yield package.pkg
+        for f in fields:
+            if isinstance(f['target'], str):
+                f['target'] = dict(name=f['target'])
+        yield from package
+    return func
+
+def resets_entry(target={}):
+    def func(package):
+        if 'name' not in target:
+            target['name'] = 'concat'
+        target.update(dict(schema=dict(fields=[])))
+        for r in package.pkg.descriptor['resources']:
+            target['schema']['fields'].append(r['name'])
+        yield package.pkg
+    return func
+'''
 
 
 def r34_closure_state(ctx, include=None, rule='R34'):
     """R34 for function-style steps (factories returning func(package) / func(rows) / func(row))."""
     run = ctx.run
+    ctl = ast.parse(_R34N_CONTROL).body
+    got = [[(h[0], len(h)) for h in closure_rerun_state(f)] for f in ctl]
+    if got != [[('source', 4)], []]:
+        raise AnalysisError('R34 (rebound factory names) self-check failed: %s' % got)
+    ctl = ast.parse(_R34E_CONTROL).body
+    got = [[(h[0], h[3]) for h in closure_rerun_state(f, {'describe': {'target'}})] for f in ctl]
+    if got != [[('args', 'element')], [], []]:
+        raise AnalysisError('R34 (objects given to the factory changed in place) self-check failed: %s' % got)
     n = 0
     for fi in sorted(ctx.repo.functions.values(), key=lambda f: f.qualname):
         if isinstance(fi.node, ast.Lambda) or fi.parent is not None or fi.cls is not None:
@@ -903,14 +1376,34 @@ def r34_closure_state(ctx, include=None, rule='R34'):
         if not any(names & {y.id for y in ast.walk(r.value) if isinstance(y, ast.Name)} for r in rets):
             continue
         n += 1
-        hits = closure_rerun_state(fi.node)
+        # a helper factory whose every call in the library is made while a run is under way (inside a generator, or inside the
+        # function a step factory hands out) builds a new scope per run: nothing it holds outlives the run.  A factory nobody in the
+        # library calls is public API and is called when the flow is put together.
+        sites = _call_sites(ctx).get(fi.qualname, [])
+        if sites and all(_per_run_context(ctx, c_) for c_ in sites):
+            run.ok(rule, fi.where, fi.qualname, 'helper factory called only while a run is under way (%d call sites): its scope is '
+                   'created afresh for every run' % len(sites))
+            continue
+        hits = closure_rerun_state(fi.node, _module_key_reads(fi.module))
         if not hits:
             run.ok(rule, fi.where, fi.qualname, 'the step function grows nothing that belongs to the factory scope')
         seen = set()
-        for nm, node, inner in hits:
+        for nm, node, inner, *kind in hits:
             if nm in seen:
                 continue
             seen.add(nm)
+            if kind and kind[0] == 'element':
+                run.fail(rule, where(ctx.repo, node), fi.qualname, 'object given to the factory as %s changed in place by a run' % nm,
+                         '%s() changes, in place, an object that belongs to what the factory was given as %s (an element or entry of '
+                         'it): the next run of the same step object - and the caller, who still holds it - find what this run left '
+                         'there, not what was passed' % (inner, nm))
+                continue
+            if kind:
+                run.fail(rule, where(ctx.repo, node), fi.qualname, 'factory-scope %s rebound by a run and read by the next before it is set' % nm,
+                         '%s belongs to the factory scope and a run rebinds it (nonlocal): %s() uses it before assigning it, so the first '
+                         'run starts from what the factory was given and every later run of the same step object from what the previous '
+                         'run left there' % (nm, inner))
+                continue
             run.fail(rule, where(ctx.repo, node), fi.qualname, 'factory-scope %s grown by the step function across runs' % nm,
                      '%s is created when the step is constructed and %s() adds to it on every run: running the same Flow object '
                      'again continues from what the previous run recorded' % (nm, inner))
